@@ -635,8 +635,18 @@ func ptDiff(spec map[string]any, pt *input.Point) string {
 			return fmt.Sprintf("time want %d ns got %d ns (%v)", w, pt.Time.UnixNano(), pt.Time.UTC())
 		}
 	}
-	ks, _ := spec["ks"].([]any)
-	es, _ := spec["es"].([]any)
+	ks0, _ := spec["ks"].([]any)
+	es0, _ := spec["es"].([]any)
+	var ks, es []any
+	for i := range ks0 { // a tag that was given "no value" is known to the index but is not part of the point
+		if v, _ := es0[i].(map[string]any)["v"].(map[string]any); v["t"] == "notag" {
+			if got, ok := pt.Tags[ks0[i].(string)]; ok {
+				return fmt.Sprintf("tag %s: was given no value and must be gone, got %q", ks0[i], got)
+			}
+			continue
+		}
+		ks, es = append(ks, ks0[i]), append(es, es0[i])
+	}
 	if len(ks) != len(pt.Fields)+len(pt.Tags) {
 		return fmt.Sprintf("keys: want %v, got fields=%v tags=%v", ks, pt.Fields, pt.Tags)
 	}
